@@ -212,6 +212,38 @@ def main(argv=None):
         else:
             undecided.append(full)
 
+    # ---- encoder cross-check (CPython vs pyvc's interpreter on concrete inputs) + runtime contracts
+    xc = {}
+    try:
+        from pyvc.xcheck import run as xrun
+        nper = 8 if a.tier == 'quick' else 200
+        xmods = sorted({ex.contracts[n].ci.module.name for n in names})
+        xc = xrun(seed + 1, nper, xmods, only=names)
+    except Exception as e:
+        xc = {'error': f'{type(e).__name__}: {e}'}
+    if xc.get('error'):
+        crashes.append({'contract': 'xcheck', 'case': '', 'error': 'encoder cross-check failed to run: ' + str(xc['error'])[-500:]})
+    for d in xc.get('disagreements', [])[:5]:
+        crashes.append({'contract': d['contract'], 'case': 'xcheck', 'error': f"pyvc interpreter disagrees with CPython: native={json.dumps(d['native'])[:200]} pyvc={json.dumps(d['pyvc'])[:200]}"})
+    for i, f in enumerate(xc.get('runtime_contract_failures', [])):
+        # a sampled concrete input on which the real code violates the contract
+        cn = f['contract']
+        doc = {'property': prop, 'obligation': f"{ex.contracts[cn].short}#{f['failed'][0] if f.get('failed') else '?'}", 'contract': cn,
+               'contract_module': ex.contracts[cn].ci.module.name, 'args': f['args'], 'ghost': {},
+               'note': 'found by runtime contract checking on sampled inputs (seeded); scripted draw = xcheck draw function'}
+        path = os.path.join(rdir, safe_name(f'runtime_{cn}.{i}') + '.json')
+        with open(path, 'w') as fh:
+            json.dump(doc, fh, indent=1)
+        code, rdoc = native_replay(path)
+        if code == 1:
+            oname = f"{ex.contracts[cn].short}#{(rdoc.get('failed') or ['?'])[0]}"
+            m = known_matches(kf, prop, oname, rdoc, path)
+            if m is not None:
+                known_reported.append({'obligation': oname, 'finding': m.get('id'), 'what': m.get('what'), 'replay': path})
+            else:
+                violations.append({'obligation': oname + ' (runtime sample)', 'replay': path, 'failed': rdoc.get('failed'),
+                                   'inputs': rdoc.get('inputs'), 'outcome': rdoc.get('outcome'), 'result': rdoc.get('result')})
+
     if a.update_baseline:
         ledger_all[prop] = sorted(d for d in discharged if d not in soft)
         ledger_all[prop + ':bounded'] = sorted([b['obligation'] for b in bounded] + list(soft))
@@ -265,6 +297,11 @@ def main(argv=None):
             'missing_from_run': missing,
             'unsupported': unsupported, 'crashes': crashes,
             'known_findings_reported': known_reported,
+            'crosscheck': {'functions': xc.get('functions'), 'inputs': xc.get('inputs'), 'agree': xc.get('agree'),
+                           'disagreements': len(xc.get('disagreements', [])), 'skipped': xc.get('skipped'),
+                           'unsupported': xc.get('unsupported', [])[:10],
+                           'runtime_contract_failures': len(xc.get('runtime_contract_failures', []))},
+            'vacuity': {'precondition_witnesses_sampled': xc.get('pre_witnesses')},
             'violations': violations,
         },
         'assumptions': [t['note'] for t in trusted if t['note']] + [
